@@ -278,7 +278,7 @@ func Run(rc *core.RunCtx) {
 		return fmt.Errorf("recovered:%v", err)
 	})
 
-	fault := []string{"none", "truncate-eof", "truncate-err", "rechunk", "content-length", "corrupt"}[t.Choose(6, "fault")]
+	fault := []string{"none", "truncate-eof", "truncate-err", "rechunk", "content-length", "corrupt", "json-prefix"}[t.Choose(7, "fault")]
 	var faultDesc string
 	var body []byte
 	hdr := http.Header{}
@@ -301,6 +301,9 @@ func Run(rc *core.RunCtx) {
 		}
 	}
 	wellFormed := fault == "none" || fault == "rechunk"
+	if fault == "json-prefix" {
+		wellFormed = false
+	}
 	tmpFault := ""
 	switch kind {
 	case "post", "sse", "mmixed":
@@ -469,6 +472,18 @@ func Run(rc *core.RunCtx) {
 	srv.AddTransport(transport.UrlEncodedForm{})
 	srv.AddTransport(mf)
 
+	if fault == "json-prefix" {
+		// a JSON decoder reads only the first value of a stream: put another complete JSON value
+		// in front of the document
+		pre := []string{"null", "null ", "7 ", `"x"`, "[]", "{}", "true", "null\n"}[t.Choose(8, "prefix")]
+		switch kind {
+		case "post", "sse", "mmixed", "urlencoded":
+			body = append([]byte(pre), body...)
+			faultDesc = "JSON value " + pre + " in front of the document"
+		default:
+			fault = "none"
+		}
+	}
 	rb := &simhttp.Body{Data: body, FailAt: -1}
 	contentLength := int64(len(body))
 	switch fault {
